@@ -49,12 +49,17 @@ func ZZ_C13_EveryRouteProtected() {
 		list = append(list, zzServiceNames[vx.Choice("svc", len(zzServiceNames))])
 	}
 	ctx := chf_context.GetSelf()
-	ctx.OAuth2Required = true
+	// the NRF declares OAuth2 mandatory when the CHF registers, which at real
+	// start-up happens AFTER the router has been built (NewServer, then Run);
+	// both orders are explored
+	lateFlag := vx.Choice("flagSetAfterRouterIsBuilt", 2) == 1
+	ctx.OAuth2Required = !lateFlag
 	ctx.NrfCertPem = "nrf.pem"
 	app := &zzApp{cfg: &factory.Config{Configuration: &factory.Configuration{ServiceNameList: list}}, ctx: ctx, p: &processor.Processor{}}
 	s := &Server{ServerChf: app}
 	router := newRouter(s)
 	vx.Assert("router created", router != nil)
+	ctx.OAuth2Required = true
 
 	known := 0
 	for _, name := range list {
